@@ -133,6 +133,10 @@ def run(ctx):
     ti = m.own_method("parser.Parameters.to_ical")
     strmodel.report(ctx, "C08/PARAM-MODEL", strmodel.explore_params, strmodel.PARAM_LAWS,
                     ti.loc(), 300)
+    # ---- OWN: parameters belong to one value (E7 on every codec constructor) ------
+    from .. import codecmodel
+    codecmodel.report(ctx, "C08/OWN", codecmodel.explore_params_ownership, codecmodel.OWN_LAWS,
+                      m.cls("parser.Parameters").loc(), 10)
     # ---- VALUE-PATH: the reader's placeholder rewriting is the identity -----------
     es = m.func("parser.escape_string")
     us = m.func("parser.unescape_string")
